@@ -23,7 +23,9 @@ Not modelled: the `hasattr` test of the `vdims` setter (labels that collide with
 attribute names of `Field` are refused by the code; the model assumes labels are not
 such names), dtype, norm, the checks of the `subregions` setter when a mesh with subregions
 is rotated (their corners are rotated, nothing is re-validated), `rotate90` with an explicit
-reference point or in place (C12 / C13 model those).
+reference point or in place: for those `Props/C05.lean` (section 10) uses the shared object-level
+model `T.rotate90F` of `Model/Transform.lean` (C12 / C13 tie it to the code) and proves that its result
+cannot be told apart from `rot90FldK` by the operators.
 -/
 namespace DFV.C05
 open DFV
@@ -368,7 +370,8 @@ def swapChar (da db : String) (c : Char) : Char :=
 `neumann` / `dirichlet` / empty, or an axis name is not a single character, the two axis
 names are exchanged in `bc` -/
 def rotBc1 (bc da db : String) : String :=
-  if !(bc == "neumann" || bc == "dirichlet" || bc == "") && da.toList.length == 1 && db.toList.length == 1 then
+  if !(bc == "neumann" || bc == "dirichlet" || bc == "") && da.toList.length == 1 && db.toList.length == 1
+      && da == da.toLower && db == db.toLower then      -- repo fix be43fa9b: only lower-case names are swapped
     String.ofList (bc.toList.map (swapChar da db))
   else bc
 
@@ -477,8 +480,7 @@ def rot90FldK (f : Fld) (da db : String) (k : Int) : M Fld :=
 /-! ## spec layer: index-level quantities the property theorems are stated against -/
 
 /-- is axis `ax` a periodic direction of the mesh of `f` (as `Field.diff` decides it) -/
-def periodic (f : Fld) (ax : Nat) : Bool :=
-  f.mesh.bc.toList.any fun ch => String.singleton ch == f.mesh.region.dims.getD ax ""
+def periodic (f : Fld) (ax : Nat) : Bool := C04.periodicBc f.mesh.bc (f.mesh.region.dims.getD ax "")
 
 /-- SPEC: value of component `c` at cell `i` of the `order`-th derivative of `f` along axis
 `ax`: the line through `i` along `ax`, differentiated as `Field.diff` does (C04) -/
@@ -573,16 +575,19 @@ def rotIdx (f : Fld) (a b : Nat) (i : List Nat) : List Nat :=
   setAt (setAt i a (i.getD b 0)) b (f.mesh.nAt b - 1 - i.getD a 0)
 
 /-- the periodicity of the two axes of the plane turns with the mesh: either both axis names
-are single characters (then `Mesh.rotate90` exchanges them in `bc`; `bc` must not be one of
-the words `neumann` / `dirichlet`, whose letters `Field.diff` would otherwise read as axis
-names), or the two axes are periodic alike to begin with -/
+are single LOWER-CASE characters (then `Mesh.rotate90` exchanges them in `bc` — repo fix be43fa9b: a
+name that is not lower case can never occur in the lower-cased `bc`, and is left alone; on a
+`neumann` / `dirichlet` / empty `bc` nothing is exchanged and, since repo fix 61bf94db, no axis is
+periodic), or the two axes are periodic alike to begin with -/
 def BcTurns (f : Fld) (a b : Nat) : Prop :=
   ((f.mesh.region.dims.getD a "").toList.length = 1 ∧ (f.mesh.region.dims.getD b "").toList.length = 1 ∧
-    f.mesh.bc ≠ "neumann" ∧ f.mesh.bc ≠ "dirichlet")
+    (f.mesh.region.dims.getD a "").toLower = f.mesh.region.dims.getD a "" ∧
+    (f.mesh.region.dims.getD b "").toLower = f.mesh.region.dims.getD b "")
   ∨ periodic f a = periodic f b
 
 /-- the turned `bc` is what the `Mesh` constructor accepts unchanged (lower case, naming axes
-of the mesh once each) -/
+of the mesh once each); since repo fix be43fa9b the last two fields follow from `MeshWf`
+(`turnWf_of_bcTurns` in `Props/C05.lean`) -/
 structure TurnWf (f : Fld) (a b : Nat) : Prop where
   turns : BcTurns f a b
   bc_lower : (rotBc1 f.mesh.bc (f.mesh.region.dims.getD a "") (f.mesh.region.dims.getD b "")).toLower
@@ -620,7 +625,7 @@ def ExactAt (f : Fld) (i : List Nat) : Prop :=
 /-! ### spec layer: fields that differentiation cannot tell apart -/
 
 /-- periodicity of an axis, read off the mesh (`periodic f ax` is `perM f.mesh ax`) -/
-def perM (m : Mesh) (ax : Nat) : Bool := m.bc.toList.any fun ch => String.singleton ch == m.region.dims.getD ax ""
+def perM (m : Mesh) (ax : Nat) : Bool := C04.periodicBc m.bc (m.region.dims.getD ax "")
 
 /-- two meshes that differentiation cannot tell apart: same axis names, and along every axis the
 same cell count, cell size and periodicity -/
@@ -639,5 +644,14 @@ structure Sim (X Y : Fld) : Prop where
   vmap : X.vmap = Y.vmap
   data : ∀ i, i.length = X.mesh.ndim → ∀ c, (X.data.get i).getD c 0 = (Y.data.get i).getD c 0
   valid : ∀ i, i.length = X.mesh.ndim → X.valid.get i = Y.valid.get i
+
+/-! ### spec layer: one-to-one mappings, fields without their subregion list -/
+
+/-- a one-to-one component-to-axis mapping: no two labels are mapped onto the same axis -/
+def OneToOne (mp : List (String × String)) : Prop := ∀ p ∈ mp, ∀ q ∈ mp, p.2 = q.2 → p = q
+
+/-- the field on the same mesh without its subregion list (the differential operators keep the mesh of
+their operand, subregions included, and read nothing of them) -/
+def strip (f : Fld) : Fld := { f with mesh := { f.mesh with subs := [] } }
 
 end DFV.C05
